@@ -1,17 +1,41 @@
-import Sucds.Proofs.Serial
-/-! # C08 — serialization round-trips every structure and accounts for every byte (partial)
+import Sucds.Proofs.SerialStruct
+/-! # C08 — serialization round-trips every structure and accounts for every byte
 
-Proved: the codec combinators (`uint k`, `bool`, `seq`, `vec`, `opt`, `iso`) preserve `Good` =
-round trip with exact consumption (hence back-to-back values are read in order) ∧ size = number of bytes
-∧ every strict prefix fails; instantiated for `BitVector`. Missing: `Good` for the remaining structure
-codecs (compositions of the same combinators; byte-for-byte equality with the real code is checked by
-the correspondence on every run). -/
+`Codec.Good c Wf` bundles, for every well-formed value `x` (every stored number fits the width it is
+serialized with, i.e. `x` is a value the Rust type can hold):
+* `rt  : c.get (c.put x ++ rest) = some (x, rest)` — deserializing the bytes yields a value equal to `x`
+  (the derived `PartialEq` is structural, so every query answers identically) and consumes exactly the
+  bytes written, whatever follows; hence values written back to back are read back in order;
+* `sz  : (c.put x).length = c.size x` — `serialize_into` writes exactly `size_in_bytes()` bytes;
+* `pre` — every strict prefix fails to decode (used by C13).
+The codecs are the models of the `Serializable` impls, in their field order; that the real code writes
+exactly these bytes is checked byte for byte by the correspondence on every run. -/
 namespace Sucds.C08
 open Sucds Sucds.Codec
 
-theorem bit_vector_codec : BV.codec.Good (fun b => b.words.size < 256^8 ∧ (∀ w ∈ b.words.toList, w < 256^8) ∧ b.len < 256^8) :=
-  BV.codec_good
-theorem vec_preserves {α} {a : Codec α} {va} (ha : a.Good va) : type_of% (vec_good ha) := vec_good ha
-theorem opt_preserves {α} {a : Codec α} {va} (ha : a.Good va) : type_of% (opt_good ha) := opt_good ha
-theorem seq_preserves {α β} {a : Codec α} {b : Codec β} {va vb} (ha : a.Good va) (hb : b.Good vb) : type_of% (seq_good ha hb) := seq_good ha hb
+/-- the full statement: every structure codec, every primitive, and the `Vec`/`Option` wrappers -/
+def Statement : Prop :=
+  BV.codec.Good BV.Wf ∧ CV.codec.Good CV.Wf ∧ R9.codec.Good R9.Wf ∧ DA.codec.Good DA.Wf ∧
+  SA.codec.Good SA.Wf ∧ EF.codec.Good EF.Wf ∧ DacB.codec.Good DacB.Wf ∧ DacO.codec.Good DacO.Wf ∧
+  PS.codec.Good PS.Wf ∧ (∀ k, (WM.codec k).Good (WM.Wf k)) ∧
+  (∀ k, (uint k).Good (fun n => n < 256^k)) ∧ Codec.i64.Good (fun x => -(2^63 : Int) ≤ x ∧ x < 2^63) ∧
+  Codec.bool.Good (fun _ => True) ∧
+  (∀ {α} (a : Codec α) (va : α → Prop), a.Good va → (vec a).Good (fun xs => xs.length < 256^8 ∧ ∀ x ∈ xs, va x)) ∧
+  (∀ {α} (a : Codec α) (va : α → Prop), a.Good va → (opt a).Good (fun o => ∀ x, o = some x → va x))
+
+theorem holds : Statement :=
+  ⟨BV.codec_wf_good, CV.codec_good, R9.codec_good, DA.codec_good, SA.codec_good, EF.codec_good,
+   DacB.codec_good, DacO.codec_good, PS.codec_good, WM.codec_good, uint_good, i64_good, bool_good,
+   fun _ _ ha => vec_good ha, fun _ _ ha => opt_good ha⟩
+
+/-- values written back to back into one stream are read back in order -/
+theorem back_to_back {α β} {a : Codec α} {b : Codec β} {va vb} (ha : a.Good va) (hb : b.Good vb)
+    (x : α) (y : β) (hx : va x) (hy : vb y) (rest : List Nat) :
+    ∃ r, a.get (a.put x ++ (b.put y ++ rest)) = some (x, r) ∧ b.get r = some (y, rest) :=
+  Good.back_to_back ha hb x y hx hy rest
+
+-- non-vacuity: a concrete well-formed value
+example : BV.Wf ⟨#[5], 3⟩ := by
+  refine ⟨⟨by decide, ?_⟩, by decide⟩
+  intro w hw; simp at hw; subst hw; decide
 end Sucds.C08
